@@ -235,6 +235,8 @@ func C12(c *mc.Ctx) {
 			}
 		}
 	}
+	c12Executor(c)
+	c.Set("rule_executor", "the executor's own rollback (a different block delivered for an already executed height, 1 to 3 below the head): BFS over block / replacement histories on the real executor; the replacing block's hash (state root included) must equal the one obtained on a copy of the node whose ledger is rolled back to the height below, restarted and given the same block")
 	c.Set("rule", "BFS over histories of committed blocks (creations, overwrites, deletions, delete+recreate, AddState, code, balance/nonce, touch-only, empty, empty value, second account, in-block snapshot/revert) with rollback(t) for every t in 0..head+1, repeated rollbacks, other continuations and reopen; plus a 13-block history crossing the 10-block journal window with every rollback target, optionally a second rollback, a different continuation block and then again every rollback target, with and without a reopen before the first rollback; the retained window (last 10 committed heights) is the harness's own bookkeeping, not read from the ledger")
 	c.Assume("memkv has goleveldb's observable semantics")
 	if c.Get("rollbacks_effective") == 0 || c.Get("reexecuted_blocks") == 0 {
@@ -242,7 +244,53 @@ func C12(c *mc.Ctx) {
 	}
 }
 
+// c12Executor: rollback as the executor performs it when consensus replaces executed blocks.
+func c12Executor(c *mc.Ctx) {
+	ops := []string{"blk t", "blk ibtp", "blk t+t", "reexecdiff 0 t", "reexecdiff 1 t", "reexecdiff 2 t", "reexecdiff 1 empty", "reexecdiff 2 ibtp"}
+	depth := 4
+	if !c.Quick() {
+		depth = 5
+	}
+	b := &mc.BFS{C: c, Name: "chainmc-executor-rollback", MaxDepth: depth, EveryTransition: true,
+		Init:    func() mc.Instance { return newC09Inst() },
+		Enabled: func(x mc.Instance, d int) []string { return ops },
+		Apply: func(x mc.Instance, op string, path []string) (bool, bool) {
+			return x.(*c09Inst).apply(op), false
+		},
+		Key: func(x mc.Instance) string {
+			in := x.(*c09Inst)
+			return in.w.R.State.Digest() + in.w.R.Chain.Digest() + in.w.R.BlockfileDigest()
+		},
+		Check: func(x mc.Instance, path []string) {
+			in := x.(*c09Inst)
+			if in.forkRef == "" {
+				return
+			}
+			c.Add("executor_replacements_compared", 1)
+			if in.forkRef != in.forkGot {
+				c.Report("C12|executor-rollback|re-executed-block-differs-from-reference", fmt.Sprintf("the block that replaced height %d has hash %s; a node whose ledger is rolled back to %d, restarted and given the same block gets %s; after %s", in.forkH, in.forkGot, in.forkH-1, in.forkRef, joinOps(path)),
+					map[string]interface{}{"engine": "c12.executor", "ops": path})
+			}
+			in.forkRef = ""
+		},
+		Close: func(x mc.Instance) { x.(*c09Inst).w.R.Close() },
+	}
+	b.Run()
+}
+
 func init() {
+	Replayers["c12.executor"] = func(c *mc.Ctx, r map[string]interface{}) {
+		in := newC09Inst()
+		path := strList(r["ops"])
+		for i, op := range path {
+			in.apply(op)
+			if in.forkRef != "" && in.forkRef != in.forkGot {
+				c.Report("C12|executor-rollback|re-executed-block-differs-from-reference", fmt.Sprintf("height %d: %s vs reference %s after %s", in.forkH, in.forkGot, in.forkRef, joinOps(path[:i+1])), map[string]interface{}{"engine": "c12.executor", "ops": path})
+			}
+			in.forkRef = ""
+		}
+		in.w.R.Close()
+	}
 	Replayers["c12.ledgermc"] = func(c *mc.Ctx, r map[string]interface{}) {
 		in := newSLInst()
 		path := strList(r["ops"])
